@@ -1,2 +1,103 @@
 //! Kani harnesses for unit codes (see /verif/notes/AGENT-BRIEF.md for naming: full_*, bnd_*, cex_*).
+//! Property C17: TYPE/CLASS/QTYPE/QCLASS/opcode/RCODE codes and their text forms.
 #![allow(unused_imports, dead_code)]
+
+use core::str::FromStr;
+
+use crate::class::Class;
+use crate::message::{ExtendedRcode, Opcode, Qclass, Qtype, Rcode};
+use crate::rr::{Ttl, Type};
+
+// ---------------------------------------------------------------------
+// Numeric conversions: loop-free, full domain (complete).
+// ---------------------------------------------------------------------
+
+/// [C17.opcode] `Opcode::try_from(u8)` accepts exactly the 4-bit values and
+/// keeps the value.
+#[kani::proof]
+pub(crate) fn full_opcode_try_from_u8() {
+    let v: u8 = kani::any();
+    match Opcode::try_from(v) {
+        Ok(op) => {
+            assert!(v < 16);
+            assert!(u8::from(op) == v);
+        }
+        Err(_) => assert!(v >= 16),
+    }
+}
+
+/// [C17.rcode] `Rcode::try_from(u8)` accepts exactly the 4-bit values and
+/// keeps the value.
+#[kani::proof]
+pub(crate) fn full_rcode_try_from_u8() {
+    let v: u8 = kani::any();
+    match Rcode::try_from(v) {
+        Ok(rc) => {
+            assert!(v < 16);
+            assert!(u8::from(rc) == v);
+        }
+        Err(_) => assert!(v >= 16),
+    }
+}
+
+/// [C17.ext_rcode] `Rcode::try_from(ExtendedRcode)` succeeds exactly when the
+/// extended RCODE is below 16 and keeps the value; `ExtendedRcode::from(u16)`
+/// and `u16::from(ExtendedRcode)` are inverse on all 65536 values.
+#[kani::proof]
+pub(crate) fn full_rcode_try_from_extended() {
+    let v: u16 = kani::any();
+    let e = ExtendedRcode::from(v);
+    assert!(u16::from(e) == v);
+    match Rcode::try_from(e) {
+        Ok(rc) => {
+            assert!(v < 16);
+            assert!(u8::from(rc) as u16 == v);
+        }
+        Err(_) => assert!(v >= 16),
+    }
+}
+
+/// [C17.ext_rcode] Every `Rcode` widens to an `ExtendedRcode` below 16 with the
+/// same value, and narrowing it again gives the `Rcode` back.
+#[kani::proof]
+pub(crate) fn full_extended_from_rcode_roundtrip() {
+    let v: u8 = kani::any();
+    if let Ok(rc) = Rcode::try_from(v) {
+        let e = ExtendedRcode::from(rc);
+        assert!(u16::from(e) == v as u16);
+        assert!(u16::from(e) < 16);
+        match Rcode::try_from(e) {
+            Ok(back) => assert!(back == rc && u8::from(back) == v),
+            Err(_) => assert!(false),
+        }
+    }
+}
+
+/// `Ttl::from(u32)`: RFC 2181 section 8 - values with the top bit set read as 0,
+/// all others are kept; the stored value never has the top bit set.
+#[kani::proof]
+pub(crate) fn full_ttl_from_u32_clamp() {
+    let v: u32 = kani::any();
+    let t = u32::from(Ttl::from(v));
+    if v > 0x7fff_ffff {
+        assert!(t == 0);
+    } else {
+        assert!(t == v);
+    }
+    assert!(t <= 0x7fff_ffff);
+}
+
+/// The 16-bit code wrappers keep every value, and the TYPE<->QTYPE and
+/// CLASS<->QCLASS conversions are the identity on the code.
+#[kani::proof]
+pub(crate) fn full_u16_wrappers_identity() {
+    let v: u16 = kani::any();
+    assert!(u16::from(Type::from(v)) == v);
+    assert!(u16::from(Class::from(v)) == v);
+    assert!(u16::from(Qtype::from(v)) == v);
+    assert!(u16::from(Qclass::from(v)) == v);
+    assert!(u16::from(Qtype::from(Type::from(v))) == v);
+    assert!(u16::from(Type::from(Qtype::from(v))) == v);
+    assert!(u16::from(Qclass::from(Class::from(v))) == v);
+    assert!(u16::from(Class::from(Qclass::from(v))) == v);
+}
